@@ -13,9 +13,15 @@ META = {
             'value parameter, its aliases and elements drawn from it are never the receiver of a mutating method nor '
             'the target of a subscript / attribute store or del, and keyed reads on mapping parameters use keys drawn '
             'from the mapping\'s own iteration; (c) id() flows only into the visited set and the recursion marker, and '
-            'no clock, random, environment or terminal query is reachable from the pipeline; (d) document objects are '
-            'immutable apart from the guarded lazy normalisation of private FlatChoice copies, and the shared constants '
-            'are built with that flag clear. User printers and foreign __repr__ are NOT covered.',
+            'no clock, random, environment or terminal query is reachable from the pipeline; (d) documents handed to the '
+            'layout (and the module-level constants inside them) are unchanged by normalisation and by both layout '
+            'strategies: decided on interpreted layouts of the model documents with before/after snapshots of everything '
+            'reachable, object identities included; the shared constants are built without the self-normalising flag. '
+            'Within (a): what the pipeline remembers per class (the struct-sequence field-name cache) is keyed by the class, '
+            'originates only from one extractor call - never from a caught exception or anything else derived from the '
+            'particular value -, is stored once, and the extractor returns the field names whatever the elements look like '
+            '(interpreted on reprs with commas, = and calls inside elements). User printers and foreign __repr__ are NOT '
+            'covered.',
     'note': 'mutator and environment-call tables are part of the checker; call graph is name-resolved (no dynamic dispatch '
             'beyond the registry, ctx methods and normalize())',
     'technique': 'static analysis: effect inventory over the call-graph cone, receiver-mutation taint on value parameters, '
